@@ -34,7 +34,7 @@ def gen_vals(rng, P, m, kind):
         elif kind == "one_rich":
             xs = sorted((rng.random() * (1000.0 if row is P[0] else 0.01) for _ in range(m)), reverse=True)
         elif kind in ("tiny", "huge"):
-            scale = 1e-10 if kind == "tiny" else 1e6
+            scale = rng.choice([1e-10, 1e-13, 1e-15]) if kind == "tiny" else 1e6
             xs = sorted((rng.choice([0.0, 0.3, 0.5, 1.0, rng.random()]) * scale for _ in range(m)), reverse=True)
         else:
             raise ValueError(kind)
